@@ -100,6 +100,9 @@ func runC02(c *Ctx) {
 			return containsAny(k, "(*obfs4Conn).clientHandshake", "parseServerHandshake", "newObfs4ClientConn", "common/ntor")
 		})
 		importObls(c, "C12", runC12, "X12", func(k string) bool { return containsAny(k, "common/csrand") })
+		// the reply the client verifies is bound to the hour the client used (C04.R5): a genuine bridge whose
+		// clock is in the adjacent hour must still be accepted
+		importObls(c, "C04", runC04, "X04", func(k string) bool { return containsAny(k, "#epochHour-store", "#hour-hashed-last", "#epochHour-use") })
 	}
 	p := c.P
 	sharedDigestRule(c, p, "R7", "transports/obfs4", "common/ntor")
